@@ -339,5 +339,43 @@ func Discharge(obls []*Obligation, tmo time.Duration, workers int, dir string) [
 		}(i)
 	}
 	wg.Wait()
+	// second chance for undecided obligations: fewer workers (less contention), three times the budget
+	var retry []int
+	for i, r := range out {
+		if !r.OK && (r.R.Status == "timeout" || r.R.Status == "unknown") && !obls[i].Vacuity {
+			retry = append(retry, i)
+		}
+	}
+	if len(retry) > 0 && len(retry) <= 24 {
+		sem2 := make(chan struct{}, 4)
+		var wg2 sync.WaitGroup
+		for _, i := range retry {
+			wg2.Add(1)
+			go func(i int) {
+				defer wg2.Done()
+				sem2 <- struct{}{}
+				defer func() { <-sem2 }()
+				fname := fmt.Sprintf("o%05d", i)
+				var r smt.Result
+				if ground[i] != "" {
+					r = smt.Solve(dir, fname+"g", ground[i], 3*tmo)
+					if r.Status == "unsat" {
+						r.Backend += "+inst"
+					}
+				}
+				if r.Status != "unsat" {
+					r2 := smt.Solve(dir, fname, scripts[i], 3*tmo)
+					r2.Secs += r.Secs
+					r = r2
+				}
+				r.Secs += out[i].R.Secs
+				if r.Status == "unsat" || r.Status == "sat" {
+					out[i].R = r
+					out[i].OK = r.Status == "unsat"
+				}
+			}(i)
+		}
+		wg2.Wait()
+	}
 	return out
 }
